@@ -333,7 +333,10 @@ impl SwiftField for Field52AccountServicingInstitution {
                 let field = Field52C::parse(value)?;
                 Ok(Field52AccountServicingInstitution::C(field))
             }
-            _ => {
+            Some(other) => Err(ParseError::InvalidFormat {
+                message: format!("Option {} is not supported by this field", other),
+            }),
+            None => {
                 // No variant specified, fall back to default parse behavior
                 Self::parse(value)
             }
@@ -396,7 +399,10 @@ impl SwiftField for Field52OrderingInstitution {
                 let field = Field52D::parse(value)?;
                 Ok(Field52OrderingInstitution::D(field))
             }
-            _ => {
+            Some(other) => Err(ParseError::InvalidFormat {
+                message: format!("Option {} is not supported by this field", other),
+            }),
+            None => {
                 // No variant specified, fall back to default parse behavior
                 Self::parse(value)
             }
@@ -479,7 +485,10 @@ impl SwiftField for Field52CreditorBank {
                 let field = Field52D::parse(value)?;
                 Ok(Field52CreditorBank::D(field))
             }
-            _ => {
+            Some(other) => Err(ParseError::InvalidFormat {
+                message: format!("Option {} is not supported by this field", other),
+            }),
+            None => {
                 // No variant specified, fall back to default parse behavior
                 Self::parse(value)
             }
@@ -553,7 +562,10 @@ impl SwiftField for Field52DrawerBank {
                 let field = Field52D::parse(value)?;
                 Ok(Field52DrawerBank::D(field))
             }
-            _ => {
+            Some(other) => Err(ParseError::InvalidFormat {
+                message: format!("Option {} is not supported by this field", other),
+            }),
+            None => {
                 // No variant specified, fall back to default parse behavior
                 Self::parse(value)
             }
